@@ -292,6 +292,10 @@ func propVerifyRaw(t *rapid.T) {
 	}
 	lr, ls := lib.Sc(r), lib.Sc(s)
 	var got bool
+	if rapid.IntRange(0, 4).Draw(t, "faulted-signing-before") == 0 {
+		// the process also signs, and a signing call just failed on its entropy source
+		lib.FaultedSigning(t, "fs")
+	}
 	adj, unchanged := gen.Adjacent(c.digest)
 	defer func() {
 		if !unchanged() {
@@ -324,6 +328,26 @@ func propVerifyRaw(t *rapid.T) {
 	}
 	if c.d != nil {
 		checkPrivatePath(t, c.d, c.digest, r, s, want)
+	}
+	// "for every public key Q": also the key object that recovery hands out for this very signature - and which
+	// the caller keeps while other verifications and recoveries run - is a key for Q
+	if want && rapid.IntRange(0, 2).Draw(t, "via-recovered-key") == 0 {
+		for id := 0; id < 4; id++ {
+			rec, ok := ref.ECDSARecover(c.digest, r, s, id)
+			if !ok || !rec.Eq(c.q) {
+				continue
+			}
+			rq, err := secec.RecoverPublicKey(c.digest, lr, ls, byte(id))
+			if err != nil {
+				break // recovery is C11's subject
+			}
+			_ = pk.VerifyRaw(c.digest, lr, ls)
+			_, _ = secec.RecoverPublicKey(c.digest, lr, ls, byte(id^1))
+			if g5 := rq.VerifyRaw(c.digest, lr, ls); !g5 {
+				t.Fatalf("VerifyRaw(digest=%x, r=%x, s=%x) = false under the key object recovered from this signature (Q=%v, id %d) once another verification and recovery had run; under an imported key for Q it is true", c.digest, r, s, c.q, id)
+			}
+			break
+		}
 	}
 }
 
